@@ -1,17 +1,194 @@
-"""C16 -- Buffer layer."""
+"""C16 -- Operations are pure: inputs never modified, results independent of history."""
+import copy
+from core import rng_for, mk, bits_of, L, R, randbits, Buffer, Padding, snapshot, impl_outcome
 import p_buffer_common as bc
+from schc_run import Batch, obs_bits, with_timeout, parse_model_bits, parser_for
+from schc_util import n_rule, n_pdesc, rules_tokens, pdesc_tokens, tb, DIRC, gen_rule, KINDS
+from gens import gen_parsed, gen_ruleset, b2s, gen_packet
+from microschc.rfc8724 import (FieldDescriptor, PacketDescriptor, RuleFieldDescriptor, RuleDescriptor, MatchMapping,
+                               DirectionIndicator as DI)
+from microschc.rfc8724extras import Context
+from microschc.manager import ContextManager
+from microschc.manager.manager import MatchStrategy
+from microschc.compressor.compressor import compress
+from microschc.decompressor.decompressor import decompress
+from microschc.ruler.ruler import Ruler
 
-RULE = ('cases enumerate (operation x padding side of every operand x bit length residue mod 8 x content class) '
-        'with all-ones, alternating and random contents, plus random long operands; a case is distinct by '
-        '(operation, operand bits and sides, parameters); every case is non-trivial in that it executes the '
-        'operation on the implementation, on the extracted Coq model and on the bit-sequence oracle')
-ASSUMPTIONS = ['operands are canonical Buffers built by the constructor (the property quantifies over bit strings)',
-               'Buffer theorems are about the byte-level Gallina model coq/theories/Buffer.v; its tie to buffer.py is this run\'s correspondence']
+RULE = ('(a) every Buffer operation of C05/C06/C13 with every operand snapshotted (content, length, padding, padding_length) before and '
+        'after: non-in-place operations must leave every operand untouched, in-place ones must leave the receiver denoting the result; '
+        '(b) histories of 30..300 compress/decompress calls (any interleaving of packets of the context\'s stack, foreign and malformed '
+        'packets, directions Up/Dw, strategies FIRST/BEST) on ONE long-lived ContextManager, compared call by call with a freshly built '
+        'manager over a deep copy of the context, while every Buffer reachable from the packet buffer, the SCHC packet, the rules and '
+        'the context is snapshotted before and after each call; (c) parse / match / compress (several rules on ONE packet descriptor) / '
+        'decompress on shared objects with the same snapshots; results also compared with the extracted Coq model; distinct by '
+        '(history, step) and driver line')
+ASSUMPTIONS = ['Python-level aliasing that a functional model cannot express is covered by the snapshots only (the theorems of C16 are partial by nature)']
+TRUSTED_EXTRA = ['C16: purity of the real Python objects is established by harness snapshots, not by a theorem']
+STACKS = ['IPv6-UDP-CoAP', 'IPv4-UDP-CoAP', 'UDP', 'CoAP', 'SCTP']
+
+
+def reach(obj, acc, seen):
+    """every Buffer reachable from a library object (by identity)"""
+    if id(obj) in seen:
+        return acc
+    seen.add(id(obj))
+    if isinstance(obj, Buffer):
+        acc.append(obj)
+    elif isinstance(obj, MatchMapping):
+        for k, v in list(obj.forward.items()) + list(obj.reverse.items()):
+            reach(k, acc, seen)
+            reach(v, acc, seen)
+    elif isinstance(obj, (list, tuple)):
+        for x in obj:
+            reach(x, acc, seen)
+    elif isinstance(obj, dict):
+        for k, v in obj.items():
+            reach(k, acc, seen)
+            reach(v, acc, seen)
+    elif isinstance(obj, (FieldDescriptor, PacketDescriptor, RuleFieldDescriptor, RuleDescriptor, Context, ContextManager, Ruler)):
+        for x in vars(obj).values():
+            reach(x, acc, seen)
+    return acc
+
+
+def snap(objs):
+    bufs = []
+    seen = set()
+    for o in objs:
+        reach(o, bufs, seen)
+    return bufs, [snapshot(b) for b in bufs]
+
+
+def structure(ctx):
+    """the non-Buffer state of a context: rule count, descriptor attributes"""
+    return [(len(r.field_descriptors) if r.field_descriptors else 0, str(r.nature),
+             [(str(f.id), f.length, f.position, str(f.direction), str(f.matching_operator), str(f.compression_decompression_action)) for f in (r.field_descriptors or [])])
+            for r in ctx.ruleset]
+
+
+def changed(bufs, before):
+    out = []
+    for b, s in zip(bufs, before):
+        s2 = snapshot(b)
+        if s2 != s:
+            out.append((s, s2))
+    return out
+
+
+def histories(rep, rnd, tier):
+    nh = 12 if tier == 'quick' else 120
+    b = Batch(rep)
+    for h in range(nh):
+        stack = STACKS[h % len(STACKS)]
+        seeds = [gen_parsed(rnd, stack) for _ in range(4)]
+        pd0 = seeds[0][3]
+        # rules with direction alternatives and shared sub-objects, matching several of the seeds
+        pd0.direction = DI.UP
+        rules = gen_ruleset(rnd, pd0, match_prob=0.8, direction=rnd.choice([DI.BIDIRECTIONAL, DI.UP]))
+        extra = gen_rule(rnd, seeds[1][3], bits_of(rules[0].id) + '1' if False else '0', kinds=KINDS, direction=DI.DOWN)
+        ctx = Context(id='c', description='', interface_id='i', parser_id=stack, ruleset=rules)
+        cm = ContextManager(ctx)
+        struct0 = structure(ctx)
+        nrs = [n_rule(r) for r in rules]
+        steps = rnd.randint(30, 60) if tier == 'quick' else rnd.randint(60, 300)
+        produced = []
+        for step in range(steps):
+            r = rnd.random()
+            d = rnd.choice([DI.UP, DI.DOWN])
+            strat = rnd.choice([MatchStrategy.FIRST, MatchStrategy.BEST])
+            fresh = ContextManager(Context.from_json(ctx.json()))        # an independent manager built from the serialised context
+            if r < 0.55 or not produced:
+                pkt = rnd.choice(seeds)[1] if rnd.random() < 0.8 else (gen_packet(rnd)[1] if rnd.random() < 0.5 else rnd.randbytes(rnd.randint(0, 40)))
+                buf = Buffer(pkt, len(pkt) * 8)
+                bufs, before = snap([buf, ctx, cm])
+                o1 = obs_bits(with_timeout(lambda: cm.compress(buf, direction=d, match_strategy=strat)))
+                ch = changed(bufs, before)
+                o2 = obs_bits(with_timeout(lambda: fresh.compress(Buffer(pkt, len(pkt) * 8), direction=d, match_strategy=strat)))
+                what = 'compress(%s,%s)' % (DIRC[d], strat.value)
+                line = ' '.join(['S', 'cmcompressp', stack, tb(b2s(pkt)), DIRC[d], 'F' if strat == MatchStrategy.FIRST else 'B'] + rules_tokens(nrs))
+                if o1[0] == 'OK' and isinstance(o1[1], str):
+                    produced.append((o1[1], d))
+            else:
+                s, d = rnd.choice(produced)
+                if rnd.random() < 0.2:
+                    s = s[:rnd.randrange(len(s) + 1)]
+                sb = mk(s, rnd.choice([L, R]))
+                bufs, before = snap([sb, ctx, cm])
+                o1 = obs_bits(with_timeout(lambda: cm.decompress(sb, direction=d)))
+                ch = changed(bufs, before)
+                o2 = obs_bits(with_timeout(lambda: fresh.decompress(mk(s, R), direction=d)))
+                what = 'decompress(%s)' % DIRC[d]
+                line = ' '.join(['S', 'cmdecompress', tb(s), DIRC[d]] + rules_tokens(nrs))
+            fails = []
+            if ch:
+                fails.append('%s at step %d modified %d reachable Buffer(s): %r -> %r' % (what, step, len(ch), ch[0][0], ch[0][1]))
+            if structure(ctx) != struct0:
+                fails.append('%s at step %d changed the structure of the context' % (what, step))
+            if o1 != o2:
+                fails.append('%s at step %d: long-lived manager gives %s, a fresh one %s' % (what, step, str(o1)[:80], str(o2)[:80]))
+            b.add('history:' + what.split('(')[0], line, o1, parse_model_bits, fails,
+                  dict(layer='history', stack=stack, step=step, what=what, rules=nrs), key=(h, step))
+    b.run()
+
+
+def shared_objects(rep, rnd, tier):
+    """parse once, then match / compress with several rules on the SAME packet descriptor, decompress the same SCHC buffer twice"""
+    n = 80 if tier == 'quick' else 800
+    b = Batch(rep)
+    from schc_run import case_compress
+    for i in range(n):
+        stack, pkt, st, _ = gen_parsed(rnd, STACKS[i % len(STACKS)])
+        buf = Buffer(pkt, len(pkt) * 8)
+        bufs, before = snap([buf])
+        pd = parser_for(stack).parse(buf)
+        if changed(bufs, before):
+            rep.violation('property', 'parse modified the packet buffer', dict(layer='history', op='parse', stack=stack, packet=pkt.hex()))
+        pd.direction = DI.UP
+        rules = [gen_rule(rnd, pd, randbits(rnd, 4), kinds=k) for k in (('vs', 'vsv'), ('lsb', 'lsbv', 'ns'), KINDS, ('map', 'vs'))]
+        ruler = Ruler(rules)
+        bufs, before = snap([pd, rules, buf])
+        list(ruler.match_packet_descriptor(pd))
+        ch = changed(bufs, before)
+        if ch:
+            rep.violation('property', 'matching modified a reachable Buffer: %r -> %r' % ch[0], dict(layer='history', op='match', stack=stack, packet=pkt.hex(), rules=[n_rule(r) for r in rules]))
+        for r in rules:
+            # the model and the reference see the descriptor as parsed; the implementation works on the shared, possibly mutated one
+            fresh_pd = parser_for(stack).parse(Buffer(pkt, len(pkt) * 8))
+            fresh_pd.direction = DI.UP
+            want = obs_bits(with_timeout(lambda: compress(fresh_pd, r)))
+            bufs, before = snap([pd, r])
+            got = obs_bits(with_timeout(lambda: compress(pd, r)))
+            ch = changed(bufs, before)
+            rep.count('shared:compress', key=('sh', i, id(r)))
+            rep.oracle_evals += 1
+            if ch:
+                rep.violation('property', 'compress modified a reachable Buffer of the packet descriptor or the rule: %r -> %r' % ch[0],
+                              dict(layer='history', op='compress', stack=stack, packet=pkt.hex(), rule=n_rule(r)))
+            if got != want:
+                rep.violation('property', 'compress on a packet descriptor already used by other rules gives %s, on a fresh one %s' % (str(got)[:80], str(want)[:80]),
+                              dict(layer='history', op='compress-shared', stack=stack, packet=pkt.hex(), rule=n_rule(r)))
+            if got[0] == 'OK' and isinstance(got[1], str):
+                sb = mk(got[1], R)
+                bufs, before = snap([sb, r])
+                d1 = obs_bits(with_timeout(lambda: decompress(sb, r)))
+                ch = changed(bufs, before)
+                d2 = obs_bits(with_timeout(lambda: decompress(sb, r)))
+                rep.count('shared:decompress', key=('shd', i, id(r)))
+                if ch:
+                    rep.violation('property', 'decompress modified the SCHC packet or the rule: %r -> %r' % ch[0], dict(layer='history', op='decompress', schc=got[1], rule=n_rule(r)))
+                if d1 != d2:
+                    rep.violation('property', 'decompressing the same SCHC buffer twice gives different results', dict(layer='history', op='decompress-twice', schc=got[1], rule=n_rule(r)))
+    b.run()
 
 
 def run(rep, tier, seed):
     bc.run_family(rep, 'C16', tier, seed)
+    rnd = rng_for(seed, 'C16-histories')
+    histories(rep, rnd, tier)
+    shared_objects(rep, rnd, tier)
 
 
 def replay(case):
-    return bc.replay(case)
+    if case.get('layer') == 'buffer':
+        return bc.replay(case)
+    return 're-run ./check C16 (histories are regenerated from the seed)'
